@@ -32,16 +32,18 @@ type CharacteristicRequest struct {
 	Events           interface{} `json:"ev,omitempty"`
 }
 
-// Authenticate verfies that a sesson for the request is available.
+// Authenticate verifies that the request was sent over a verified (encrypted) session.
+// Requests over connections, which did not finish pair verify, are refused.
 func (srv *Server) Authenticate(next http.Handler) http.Handler {
 	return http.HandlerFunc(func(w http.ResponseWriter, r *http.Request) {
 		w.Header().Set("Content-Type", hap.HTTPContentTypeHAPJson)
-		sess := srv.context.GetSessionForRequest(r)
-		if sess == nil {
+		sess, _ := srv.context.Get(srv.context.GetConnectionKey(r)).(hap.Session)
+		if sess == nil || sess.Encrypter() == nil {
 			w.WriteHeader(470) // this custom status code indicates an error
 			if err := WriteJSON(w, r, &ErrResponse{Status: hap.StatusInsufficientPrivileges}); err != nil {
 				log.Debug.Println(err)
 			}
+			return
 		}
 
 		next.ServeHTTP(w, r)
